@@ -128,6 +128,36 @@ CLAIMED = {
    note="As C03. 'belongs to this set' = listed by the set's selector labels or upgrade marker and orphan or controlled by its UID.",
    technique="Coq proof (pure selection spec + phase decomposition of the reconcile log) + differential correspondence + monitor",
    ref="6 C13"),
+ "C08": dict(
+   text="Coq theorems (C08.v): the revision resolution reads nothing of the set but name, UID, template and status (two sets differing only in replicas, "
+        "slots, pause flag, policy, strategy ... resolve state-by-state to the same computation); a listed revision recording the template => no create "
+        "(reuse or renumber); the collision loop, for EVERY hash function, only creates and reads and returns the requested template; EqualRevision "
+        "implies equal templates. Projected correspondence (revision writes) on revision-heavy populations incl. engineered name collisions + monitor "
+        "(stored update revision mirrors the template; rollback renumbered above all others). The codec-level facts (getPatch depends on "
+        "spec.template only; ApplyRevision restores it) are checked on the real code over generated PodTemplateSpecs: modelled, not proved.",
+   note="As C03. Templates are abstract values in the model; the apimachinery codec and strategic-merge patch are modelled, validated by the `patch` family.",
+   technique="Coq proof (revision resolution: independence, no-create, collision loop) + differential correspondence + monitor + codec differential test",
+   ref="6 C08"),
+ "C18": dict(
+   text="(a) Byte identity of the revision data with the built-in controller's is a statement about apimachinery's codecs: differentially tested (real "
+        "getPatch on the converted set vs a reference encoder on client-go's apps/v1 scheme, generated valid PodTemplateSpecs, both directions) — "
+        "PARTIAL, not proved. (b) Coq theorems (C18.v): a listed revision recording the template is reused without any create; pods of the desired set at "
+        "the update revision are never deleted; adoption of the marked revisions happens after a fresh GET; a concrete migrated world is adopted, "
+        "creates nothing, deletes nothing and is quiet on the second reconcile. Correspondence + monitor on generated migrated worlds (orphan revisions "
+        "with marker and without selector labels, orphaned pods, any point of a rollout), two reconciles.",
+   note="PARTIAL for (a) as stated. (b) as C03.",
+   technique="codec differential test (bytes) + Coq proof of the control part over the reconcile model + differential correspondence + monitor",
+   ref="6 C18"),
+ "C19": dict(
+   text="Coq theorems (C19.v): annotation codecs lossless for all int32 sets and all maps incl. nil (decimal printer/parser round trip; union; empty removes "
+        "the key; frame); schema-directed JSON conversion lossless on every field the Advanced schema models, never fails, keeps list length/order, yields "
+        "apps/v1 — generic in the schemas and re-instantiated each run on schemas extracted from the Go types by reflection; the combinator model of "
+        "SetObjectDefaults_StatefulSet is idempotent on every JSON tree. Tied to the real helpers, From/ToBuiltin*, the real hijack client over the fake "
+        "clientset and the real defaulter by differential evaluation inside coqc.",
+   note="Trusted: Coq kernel; opaque-leaf assumption for identical k8s types; tree-level model of encoding/json; the reflection translator; Quantity.RoundUp / "
+        "ParseImageName as functions with an idempotence hypothesis (proved for the evaluated model). Partial: leaves calling into apimachinery.",
+   technique="Coq proof over executable models + reflection-based schema translator + differential correspondence",
+   ref="6 C19"),
 }
 
 checks = []
